@@ -24,6 +24,12 @@ def cells():
     o2 = families.ops2_lang()
     out.append(('OPS2/a', o2, [('c1', 'Crate', {}), ('i1', 'Item', {}), ('i2', 'Item', {'locked': 1.0})],
                 [('Part', 'whole', ['c1'], 'parts', ['i1', 'i2']), ('Contain', 'container', ['c1'], 'inside', ['i1'])], [('c1', ['open'])]))
+    # a step that lists one tag twice among several (valid; the compiler keeps the list as written)
+    dup = langs.spec([langs.asset('Tg', steps=[
+        step('go', 'or', tags=['hidden', 'entry', 'hidden', 'noisy', 'remote'], reaches=[COL(F('nexts'), S('go'))]),
+        step('dd', 'defense', tags=['x', 'x'], ttc=langs.fn('Enabled'), reaches=[S('go')])])],
+        [langs.assoc('Nx', 'Tg', 'prevs', '*', '*', 'nexts', 'Tg')], lang_id='org.verif.duptags')
+    out.append(('DUPTAGS/a', dup, [('a', 'Tg', {}), ('b', 'Tg', {'dd': 0.0})], [('Nx', 'prevs', ['a'], 'nexts', ['b'])], [('a', ['go'])]))
     g1, g2 = gops_lang(), gops2_lang()
     out.append(('GOPS/a', g1, [('a', 'Nn', {'dd': 0.0}), ('b', 'Nn', {})], [('Peer', 'peers', ['b'], 'peersOf', ['a'])], [('a', ['go']), ('b', ['chk'])]))
     out.append(('GOPS2/a', g2, [('a', 'Pp', {}), ('b', 'Qq', {'lock': 1.0}), ('c', 'Qq', {})],
